@@ -48,7 +48,9 @@ impl Obs {
   pub fn note_outcome<T: Hash>(&mut self, t: &T) {
     let mut h = DefaultHasher::new();
     self.outcome.hash(&mut h);
+    crate::val::PRECISE_HASH.with(|p| p.set(true));
     t.hash(&mut h);
+    crate::val::PRECISE_HASH.with(|p| p.set(false));
     self.outcome = h.finish();
   }
   pub fn log(&mut self, f: impl FnOnce() -> String) {
